@@ -244,6 +244,68 @@ def main():
         except Exception as ex:
             out["oracle_bad"].append({"oracle": "flatten", "x": enc(x), "error": repr(ex),
                                       "site": {"oracle": "flatten"}})
+    # ---- (B') dicts assembled in an order that is NOT the sorted order: iteration (for k in d, keys, values, items,
+    #      enumerate, zip with positional weights) follows insertion order under tracing exactly as on the plain dict;
+    #      the dict constructor with overriding keys ----
+    for i in range(cfg["n_oracle"]):
+        ks = rng.sample(range(10), rng.randint(2, 4))
+        if ks == sorted(ks):
+            ks = ks[::-1]
+        mixed = rng.random() < 0.3
+        keys = [("k%d" % k if (mixed and j % 2) else k) for j, k in enumerate(ks)] if mixed else ks
+        d0 = {k: onp.array([float(rng.randint(-3, 3)), float(rng.randint(-3, 3))]) for k in keys}
+        wts = [float(j + 2) for j in range(len(keys))]
+        progs_d = {
+            "for k in d": lambda d: sum(w * anp.sum(d[k]) for w, k in zip(wts, d)),
+            "d.values()": lambda d: sum(w * anp.sum(v) for w, v in zip(wts, d.values())),
+            "d.items()": lambda d: sum(w * anp.sum(v) for w, (k, v) in zip(wts, d.items())),
+            "d.keys()": lambda d: sum(w * anp.sum(d[k]) for w, k in zip(wts, d.keys())),
+            "enumerate(d)": lambda d: sum((j + 2.0) * anp.sum(d[k]) for j, k in enumerate(d)),
+            "list(d)[0]": lambda d: anp.sum(d[list(d)[0]]) * 3.0,
+            "first of items": lambda d: anp.sum(list(d.items())[0][1]) * 5.0,
+            "sorted(d, key=str)": lambda d: sum(w * anp.sum(d[k]) for w, k in zip(wts, sorted(d, key=str))),
+        }
+        for pname, fd in progs_d.items():
+            out["oracle_n"] += 1
+            out["oracle_keys"].append("dict-order:%s:%s" % (pname, keys))
+            dist("oracle:dict-iteration-order")
+            try:
+                plain = float(fd(d0))
+                order = list(d0) if "sorted" not in pname else sorted(d0, key=str)
+                wmap = {"list(d)[0]": {order[0]: 3.0}, "first of items": {order[0]: 5.0}}.get(pname, {k: w for w, k in zip(wts, order)})
+                g = grad(fd)(d0)
+                val = float(make_vjp(fd)(d0)[1])
+                ok = val == plain and list(g) == list(d0) and all(onp.all(g[k] == wmap.get(k, 0.0)) for k in d0)
+                if not ok:
+                    out["oracle_bad"].append({"oracle": "dict-iteration-order:" + pname, "x": enc({j: v for j, (k, v) in enumerate(d0.items())}),
+                                              "keys": [str(k) for k in keys], "value_traced": val, "value_plain": plain,
+                                              "vjp": {str(k): onp.asarray(v).tolist() for k, v in g.items()}, "site": {"oracle": "dict-iteration-order"}})
+            except Exception as ex:
+                out["oracle_bad"].append({"oracle": "dict-iteration-order:" + pname, "keys": [str(k) for k in keys], "error": repr(ex),
+                                          "site": {"oracle": "dict-iteration-order"}})
+        # the dict constructor: later entries override earlier ones with the same key (keyword over mapping, pair lists)
+        a0 = onp.array([1.0, 2.0])
+        cons = {
+            "dict(mapping, key=x)": (lambda x: adict({"lr": 5.0 * x, "m": x * 2.0}, lr=x * x)["lr"], lambda x: x * x),
+            "dict(pairs with a repeated key)": (lambda x: adict([("a", x * 7.0), ("b", x), ("a", x * x * x)])["a"], lambda x: x * x * x),
+            "dict(mapping, key=x) other key": (lambda x: adict({"lr": 5.0 * x, "m": x * 2.0}, lr=x * x)["m"], lambda x: x * 2.0),
+            "dict(pairs) then values": (lambda x: sum(adict([("a", x * 7.0), ("b", x), ("a", x * x * x)]).values()), lambda x: x + x * x * x),
+            "dict(**kwargs)": (lambda x: adict(u=x * 3.0, v=x * x)["v"] + adict(u=x * 3.0, v=x * x)["u"], lambda x: x * x + 3.0 * x),
+        }
+        if i == 0:
+            for cname, (fc, fplain) in cons.items():
+                out["oracle_n"] += 1
+                out["oracle_keys"].append("dict-constructor:" + cname)
+                dist("oracle:dict-constructor")
+                try:
+                    want = onp.asarray(grad(lambda x: anp.sum(fplain(x)))(a0))
+                    got = onp.asarray(grad(lambda x: anp.sum(fc(x)))(a0))
+                    valc = onp.asarray(fc(a0))
+                    if not (onp.all(got == want) and onp.all(valc == fplain(a0))):
+                        out["oracle_bad"].append({"oracle": "dict-constructor:" + cname, "vjp": got.tolist(), "expected": want.tolist(),
+                                                  "site": {"oracle": "dict-constructor"}})
+                except Exception as ex:
+                    out["oracle_bad"].append({"oracle": "dict-constructor:" + cname, "error": repr(ex), "site": {"oracle": "dict-constructor"}})
     # ---- (C) one container OBJECT differentiated, edited in place, differentiated again: the second gradient is that
     #      of the container as it is now (the same as for a freshly built equal container) ----
     def fresh(v):
